@@ -21,6 +21,7 @@ func main() {
 	in := flag.String("in", "", "replay the specs of this JSONL file instead of generating")
 	out := flag.String("out", "c18.jsonl", "output file")
 	noCorpus := flag.Bool("nocorpus", false, "skip the corpus")
+	withSweep := flag.Bool("sweep", false, "add the parameter sweep of the boundary histories (thorough tier)")
 	flag.Parse()
 
 	o := hlib.NewOut(*out)
@@ -38,6 +39,9 @@ func main() {
 	} else {
 		if !*noCorpus {
 			specs = append(specs, corpus()...)
+		}
+		if *withSweep {
+			specs = append(specs, sweep()...)
 		}
 		root := hlib.NewRand(*seed)
 		for i := 0; i < *n; i++ {
